@@ -402,7 +402,7 @@ RING_GEN = [  # (name, overrides, quick?)
     ("w-rw-noclose", dict(nclose=0, total=6), True),
     # calls that ask for more than one read block (3 of the ring's 4 units): a producer may wait for more room than a block
     ("ww-rp-chunk3", dict(pops='{"WW"}', cops='{"RP"}', maxchunk=3, nclose=0, total=7), True),
-    ("pump-rw", dict(pmode="pump"), False),
+    ("pump-rw", dict(pmode="pump"), True),
     ("pump-pump", dict(pmode="pump", cmode="pump"), False),
     ("w-rw-close2", dict(nclose=2), False),
     ("ww-rp-5", dict(pops='{"WW"}', cops='{"RP"}', total=5), False),
@@ -872,7 +872,7 @@ def c08(tier):
 
 @check("C09")
 def c09(tier):
-    return broker_check("C09", tier, [("WillSpec", "paths", 6, 7, "mockSuccess"), ("WillSpec", "cover", 7, 8, "mockSuccess")], {"C09", "C01", "C08", "C07"},   # in this configuration every retained message is a will
+    return broker_check("C09", tier, [("WillSpec", "paths", 6, 7, "mockSuccess"), ("WillSpec", "cover", 7, 8, "mockSuccess"), ("WillEofSpec", "paths", 4, 6, "mockSuccess")], {"C09", "C01", "C08", "C07"},   # in this configuration every retained message is a will
                         "configuration will: all sequences of connect (CleanSession x {no will, QoS 0, QoS 1 + retain, QoS 2 + empty payload}) / end (DISCONNECT, "
                         "cut, malformed packet) on one client id, witness subscribed to '#'; the will deliveries per connection end are compared.")
 
@@ -900,7 +900,7 @@ CONSTANTS
  Gaps = {2, 4, 5, 9}
  LongGaps = {26}
  MaxSends = %d
- Kinds = {"ping", "pub", "part1", "part3"}
+ Kinds = {"ping", "pub", "part1", "part3", "partbig"}
  Priors = {"none", "long"}
 INVARIANTS SilentDropped WillIffExpired Emit
 PROPERTIES ActiveNeverDropped
